@@ -105,8 +105,26 @@ func formatRun(line string) string {
 
 var (
 	fmtWidths = []int{0, 1, 2, 3, 4, 5, 8, 10, 16, 17, 20, 32, 33, 39, 40, 41, 45, 64, 65, 128, 129, 130, 131, 140, 256, 300}
-	fmtFlags  = []string{".", ".", ".", "p", "m", "s", "b", "z", "pz", "mz", "sz", "bz", "pb", "ps", "ms", "pm", "psz", "pmsbz", "bs", "mb", "bsz", "pms"}
+	fmtFlags  = allFlagSubsets()
 )
+
+// allFlagSubsets: every subset of the five flags + - # blank 0 (32), the empty one three times as often.
+func allFlagSubsets() []string {
+	out := []string{".", "."}
+	for m := 0; m < 32; m++ {
+		t := ""
+		for k, c := range "pmsbz" {
+			if m&(1<<k) != 0 {
+				t += string(c)
+			}
+		}
+		if t == "" {
+			t = "."
+		}
+		out = append(out, t)
+	}
+	return out
+}
 
 func (formatArea) Gen(r *hx.Rng, n int, _ string, emit func(string)) {
 	for i := 0; i < n; i++ {
